@@ -207,6 +207,82 @@ def compare(atoms, table, expected, names):
     return True, "agrees on all %d valuations of %s" % (len(table), atoms)
 
 
+
+def list_any_form(F, clo, whole):
+    """Is the predicate closure `clo` the disjunction of the predicates in the captured list `whole`
+    (`list.iter().any(|f| f(ch))`, or a loop that returns true at the first member accepting `ch` and false after the last)?
+    Returns (ok, detail)."""
+    from .common import DESUGAR_DEFAULT
+    if clo[0] != "closure" or clo[1] not in F.fns:
+        return False, "not a closure"
+    cfn = F.fns[clo[1]]
+    ex = S.Engine(cfn, F, BaseModel(), cut_edges=cfn.back_edges(),
+                  inline=lambda name: re.search(INLINE, name) is not None or "{closure" in name, max_depth=8, desugar=DESUGAR_DEFAULT)
+    p = S.Path()
+    p.locals[(ex.fid, 1)] = ("ref", ("loc", clo, ()), False)
+    p.locals[(ex.fid, 2)] = ("sym", "ch")
+    qs = ex.run(0, p)
+    if ex.truncated or not qs:
+        return False, "closure body not enumerable"
+    srcs = set()
+    kinds = set()
+    for q in qs:
+        for e in q.events:
+            if e[0] in ("iter-item", "iter-exhausted"):
+                srcs.add(e[3])
+            elif e[0] == "call" and re.search(r"iter::Iterator>::next$", e[2]):
+                srcs.add(ex.deref_val(q, e[3][0]) if e[3][0][0] == "ref" else e[3][0])
+        tests = [(c, o) for c, o in q.conds if isinstance(o, bool) and c[0] == "app" and re.search(r"ops::Fn<.*>>::call$", c[1]) and "item@" in S.fstr(c)]
+        other = [(c, o) for c, o in q.conds if isinstance(o, bool) and (c, o) not in tests and S.mentions(c, lambda x: x == ("sym", "ch"))]
+        if other:
+            return False, "tests the character outside the members: %s" % S.vstr(other[0][0])[:80]
+        for c, o in tests:
+            a = c[2][1] if len(c[2]) > 1 else None
+            if a is None or not S.mentions(a, lambda x: x == ("sym", "ch")):
+                return False, "a member is applied to %s" % S.vstr(a)[:60]
+        if q.end[0] == "return":
+            r = q.end[1]
+            if r == ("bool", True):
+                if not (len(tests) == 1 and tests[-1][1] is True):
+                    return False, "returns true without a member accepting ch (tests %s)" % [(S.vstr(c)[:40], o) for c, o in tests]
+                kinds.add("hit")
+            elif r == ("bool", False):
+                if tests:
+                    return False, "returns false although members were still to be tested"
+                kinds.add("none")
+            elif tests == [] and r[0] == "app" and re.search(r"ops::Fn<.*>>::call$", r[1]):
+                return False, "returns a single member's answer"
+            else:
+                return False, "returns %s" % S.vstr(r)[:60]
+        elif q.end[0] == "cut":
+            if not (len(tests) == 1 and tests[-1][1] is False):
+                return False, "goes on to the next member without having tested this one"
+            kinds.add("next")
+        elif q.end[0] != "dead":
+            return False, "path ends in %s" % (q.end[0],)
+    if kinds != {"hit", "none", "next"}:
+        return False, "cases %s (expected: member accepts -> true, member rejects -> next, no member left -> false)" % sorted(kinds)
+    def outside(t):
+        # subterms of t that are not inside the captured list value itself
+        if t == whole:
+            return
+        yield t
+        for k in t[1:] if isinstance(t, tuple) else ():
+            if isinstance(k, tuple):
+                if k and isinstance(k[0], str):
+                    yield from outside(k)
+                else:
+                    for kk in k:
+                        if isinstance(kk, tuple) and kk and isinstance(kk[0], str):
+                            yield from outside(kk)
+    bad_ad = [x[1] for s_ in srcs for x in outside(s_) if x[0] == "app" and re.search(r"Iterator>::(rev|skip|take|filter|filter_map|flat_map|step_by|skip_while|take_while|chain|zip|cycle|map)\b", str(x[1]))]
+    if bad_ad:
+        return False, "members filtered/reordered by %s" % [M.short_name(a) for a in bad_ad]
+    if not srcs or not all(S.mentions(s_, lambda x: x == whole) for s_ in srcs):
+        return False, "iterates over %s, not over the captured list" % [S.fstr(s_)[:60] for s_ in srcs]
+    return True, "true iff some member of the captured list accepts ch"
+
+
 def unwrap_ok(v):
     """Ok(MatchFn(closure)) / Ok(MatchFunction{MatchFn(closure)}) / MatchFn(closure) -> closure value"""
     n = 0
@@ -517,7 +593,9 @@ def analyze(ctx, want):
     # =============================================================== union
     # the union of the items: an accumulator that starts as the empty set and, per item (all of them, in order, converted with
     # negated = false), becomes acc ∨ item — written as try_fold with a step closure or as a loop over a mutable accumulator
-    fn, ex, paths = run(r"TryFrom<&regex_syntax::ast::ClassSetUnion>>::try_from$")
+    # — or as the list of all converted items (collected in order, an item's error returned) with the predicate "some member
+    # of the list accepts ch"
+    fn, ex, paths = run(r"TryFrom<&regex_syntax::ast::ClassSetUnion>>::try_from$", desugar=r".|collect")
     from .common import loop_sources
     srcs_u = sorted(set(s_ for _, s_ in loop_sources(ex, paths)))
     ad2 = [M.short_name(M.call_name(t)) for bb, t in fn.calls(r"Iterator>::(rev|skip|take|filter|filter_map|flat_map|step_by|skip_while|take_while|chain|zip|cycle)\b")]
@@ -533,6 +611,13 @@ def analyze(ctx, want):
                 if sclo is None:
                     continue
                 n_seed += 1
+                done = [e for e in p.events if e[0] == "iter-exhausted" and re.search(r"Iterator>::collect", str(e[2]))]
+                if done and sclo[0] == "closure":
+                    # list form: the finished collection of all converted items is captured by the predicate
+                    whole = ("app", done[-1][2], (done[-1][3],))
+                    okl, detl = list_any_form(F, sclo, whole)
+                    ob("C08.b", "union:seed-is-the-empty-set", okl, "list form: " + detl, fn.loc())
+                    continue
                 a_, t_ = truth_table(eval_closure(F, sclo), lambda v: None) if sclo[0] in ("closure", "fn") else (None, "seed is not a predicate closure")
                 ob("C08.b", "union:seed-is-the-empty-set", a_ == [] and t_ == {(): False}, "predicate of the union of no items: %s" % (t_,), fn.loc())
             continue
@@ -556,6 +641,12 @@ def analyze(ctx, want):
         clo = unwrap_ok(("adt", "std::result::Result", "Ok", (newacc,))) if newacc is not None else None
         item_f = ("field", ("downcast", conv[0][4], "Ok"), "0")
         okstep, det = False, "new accumulator not found"
+        coll = [e for e in p.events if e[0] == "collect-item"]
+        if coll and newacc is None:
+            # list form: this item's predicate (and nothing else) joins the list
+            okstep = len(coll) == 1 and coll[0][2] == item_f and neg_false
+            ob("C08.b", "union:step-is-acc-or-item", okstep, "list form: element collected for this item: %s" % S.vstr(coll[0][2])[:80], fn.loc())
+            continue
         if clo is not None and clo[0] == "closure":
             # the step must be right for an arbitrary accumulated set, not only for the empty seed of the first iteration:
             # the captured accumulator is replaced by a symbol
